@@ -211,8 +211,25 @@ struct Stats {
 fn main() {
     let a = parse_args();
     if std::env::var_os("VERIF_PANIC_MSGS").is_none() {
-        // scenario panics (fault injection) are expected by the hundreds: keep stderr readable
-        std::panic::set_hook(Box::new(|_| {}));
+        // scenario panics (fault injection) are expected by the hundreds: keep stderr readable, but
+        // remember the last few so that a fatal (non-unwinding) panic can be explained
+        static RECENT: std::sync::Mutex<Vec<String>> = std::sync::Mutex::new(Vec::new());
+        std::panic::set_hook(Box::new(|info| {
+            let msg = info.payload().downcast_ref::<&str>().map(|s| s.to_string()).or_else(|| info.payload().downcast_ref::<String>().cloned()).unwrap_or_else(|| "<non-string payload>".into());
+            let line = format!("{} at {}", msg, info.location().map(|l| l.to_string()).unwrap_or_default());
+            let mut r = RECENT.lock().unwrap_or_else(|e| e.into_inner());
+            if r.len() >= 6 {
+                r.remove(0);
+            }
+            r.push(line);
+            if msg.contains("panic in a destructor during cleanup") || msg.contains("cannot unwind") || msg.contains("failed to initiate panic") {
+                eprintln!("FATAL non-unwinding panic; recent panics (oldest first):");
+                for l in r.iter() {
+                    eprintln!("  {}", l);
+                }
+                eprintln!("{}", std::backtrace::Backtrace::force_capture());
+            }
+        }));
     }
     let reg = registry();
     let def = match reg.iter().find(|d| d.name == a.scen) {
@@ -330,7 +347,7 @@ fn main() {
             let mut plans: Vec<Vec<PlanEntry>> = vec![vec![]];
             let first = if seed_i == a.skip_seed { a.skip_plan } else { 0 };
             // dry run is always executed (also when resuming) to learn the reachable sites
-            println!("EXEC {} seed_index={} plan_index=0 plan=none", def.name, seed_i);
+            println!("EXEC {} seed_index={} plan_index=0 sseed={} enc= plan=none", def.name, seed_i, sseed);
             std::io::stdout().flush().ok();
             let o = run_one(def, sseed, &[], &a);
             let hits = o.trace.hits.clone();
@@ -387,7 +404,7 @@ fn main() {
                 if st.execs >= a.max_execs || st.wall.elapsed() > budget {
                     break 'outer;
                 }
-                println!("EXEC {} seed_index={} plan_index={} plan={}", def.name, seed_i, j, plan_str(plan, &names));
+                println!("EXEC {} seed_index={} plan_index={} sseed={} enc={} plan={}", def.name, seed_i, j, sseed, plan_encode(plan), plan_str(plan, &names));
                 std::io::stdout().flush().ok();
                 let o = run_one(def, sseed, plan, &a);
                 let c = handle(&mut st, o, seed_i, sseed, j, plan);
